@@ -1,6 +1,7 @@
 package sim
 
 import (
+	"fmt"
 	"testing"
 	"time"
 
@@ -207,11 +208,37 @@ func TestC01Sim(t *testing.T) {
 }
 
 func TestC17Observer(t *testing.T) {
-	vlib.SetRule("C17", "TestC17Observer", "simulated histories dominated by upserts, deletes (incl. re-creation with empty values) and compactions with thresholds 1-3 on several owners while observers receive lossy, truncated gossip; then a fair closure; oracle: every observer's live view (non-deleted, non-internal keys and values) of every owner equals the owner's own live state; non-trivial = an effective compaction happened while some observer was behind")
+	vlib.SetRule("C17", "TestC17Observer", "simulated histories dominated by upserts, deletes (incl. re-creation with empty values) and compactions with thresholds 1-3 on several owners while observers receive lossy, truncated gossip (a fifth of the histories start with the owner with the smallest packet limit (if at most 400 bytes) holding about as many keys as that limit has bytes, or more); then a fair closure; oracle: every observer's live view (non-deleted, non-internal keys and values) of every owner equals the owner's own live state; non-trivial = an effective compaction happened while some observer was behind")
 	p := &Profile{Prop: "C17", Oracles: map[string]bool{}, TinyPackets: true, MaxSteps: maxSteps(60, 150),
 		Weights: map[string]int{"upsert": 12, "delete": 9, "compact": 8, "leave": 0, "leaveVia": 0, "close": 0, "crash": 0, "sweep": 0, "toExpiry": 0, "silence": 0, "liveness": 0, "partition": 0, "addConn": 1, "removeConn": 1, "drop": 5, "forge": 0}}
 	vlib.RunSync(t, "C17", func(c *vlib.Case) {
 		s := New(c, p)
+		// a fifth of the histories start from a large state: one owner holds more live
+		// keys than its packet limit has bytes, so that after a compaction (which
+		// re-versions every live key) a caught-up observer is further behind than one
+		// packet can even count
+		if c.Chance("largeState", 1, 5) {
+			owner := s.nodes[0]
+			for _, n := range s.nodes {
+				if n.maxPacket < owner.maxPacket {
+					owner = n
+				}
+			}
+			if owner.maxPacket > 400 {
+				owner = nil
+			}
+			for i, k := 0, 0; owner != nil && (i == 0 || i < k); i++ {
+				if i == 0 {
+					k = owner.maxPacket - 10 + c.Int("extraKeys", 0, 40)
+				}
+				owner.n.State.UpsertLocal(fmt.Sprintf("L%03d", i), "v")
+			}
+			if owner != nil {
+				s.snapshotLocal(owner)
+				s.afterAction()
+				c.Class("large-state")
+			}
+		}
 		n := steps(c, p)
 		for i := 0; i < n; i++ {
 			s.Step()
